@@ -130,16 +130,16 @@ func (s *Source) err() error {
 
 // Sink is a schedule-controlled writer that records everything it accepted.
 type Sink struct {
-	X         *explore.X
-	Buf       []byte
-	Calls     int
-	Log       []int // size of each accepted write
-	AllowFail bool
-	FailOnce  bool
+	X          *explore.X
+	Buf        []byte
+	Calls      int
+	Log        []int // size of each accepted write
+	AllowFail  bool
+	FailOnce   bool
 	NoSchedule bool
 
-	Failed   bool
-	FailCall int
+	Failed    bool
+	FailCall  int
 	AfterFail int
 }
 
